@@ -100,6 +100,15 @@ pub enum CompileError {
 
 /// Compiles one single-file crate.
 pub fn compile(db: &mut RootDatabase, path: &Path, cfg: &Config) -> Result<Compiled, CompileError> {
+    compile_with_program(db, path, cfg).map(|x| x.1)
+}
+
+/// Compiles a crate (file or directory); also returns the Sierra program (debug names on).
+pub fn compile_with_program(
+    db: &mut RootDatabase,
+    path: &Path,
+    cfg: &Config,
+) -> Result<(cairo_lang_sierra::program::Program, Compiled), CompileError> {
     let inputs: Vec<CrateInput> =
         setup_project(db, path).map_err(|e| CompileError::Internal(format!("setup_project: {e:?}")))?;
     let mut s = String::new();
@@ -134,12 +143,13 @@ pub fn compile(db: &mut RootDatabase, path: &Path, cfg: &Config) -> Result<Compi
         skip_non_linear_solver_comparisons: s == Solver::NonLinear,
         ..Default::default()
     });
+    let sierra_copy = sierra.clone();
     let runner = vcommon::catch(std::panic::AssertUnwindSafe(|| {
         SierraCasmRunner::new(sierra, meta, Default::default(), None)
     }))
     .map_err(|e| CompileError::Internal(format!("runner set-up panicked: {e} at {}", vcommon::last_panic_location())))?
     .map_err(|e| CompileError::Internal(format!("runner: {e:?}")))?;
-    Ok(Compiled { runner, gas: cfg.gas.is_some(), sierra_statements: n })
+    Ok((sierra_copy, Compiled { runner, gas: cfg.gas.is_some(), sierra_statements: n }))
 }
 
 #[derive(Clone, PartialEq, Eq, Debug)]
